@@ -818,6 +818,56 @@ pub async fn verify_image(ctx: &VerifyCtx<'_>, img: &Path, plan: &ImagePlan, idx
             }
         }
     }
+    // C10 crash clause: with versioning on, the history of every key after recovery lists each
+    // version of the recovered prefix exactly once, newest first (the workloads of these traces
+    // only set values, so every version is retained)
+    if ctx.cfg.versioning {
+        if let Some(n) = matched {
+            let mut exp: BTreeMap<Vec<u8>, Vec<Vec<u8>>> = BTreeMap::new();
+            for t in ctx.txns.iter().take(n) {
+                for (k, key, v) in &t.ops {
+                    if *k == Kind::Set {
+                        exp.entry(key.clone()).or_default().insert(0, v.clone());
+                    }
+                }
+            }
+            let got: Result<BTreeMap<Vec<u8>, Vec<Vec<u8>>>, String> = (|| {
+                let tx = tree.begin_with_mode(Mode::ReadOnly).map_err(|e| e.to_string())?;
+                let o = surrealkv::HistoryOptions::new().with_tombstones(false);
+                let mut it = tx.history_with_options(&b"\x00"[..], &b"\xff\xff\xff\xff"[..], &o).map_err(|e| e.to_string())?;
+                let mut m: BTreeMap<Vec<u8>, Vec<Vec<u8>>> = BTreeMap::new();
+                let mut ok = it.seek_first().map_err(|e| e.to_string())?;
+                while ok && it.valid() {
+                    let k = it.key().user_key().to_vec();
+                    let v = it.value().map_err(|e| format!("value of {}: {e}", hex(&k)))?;
+                    m.entry(k).or_default().push(v);
+                    ok = it.next().map_err(|e| e.to_string())?;
+                }
+                Ok(m)
+            })();
+            match got {
+                Err(e) => res.problems.push(("history_after_crash".into(), format!("history of the recovered store failed: {e}"))),
+                Ok(m) => {
+                    if m != exp {
+                        let bad = exp.iter().find(|(k, v)| m.get(*k) != Some(v)).map(|(k, v)| (k.clone(), v.len(), m.get(k).map(|x| x.len())));
+                        let extra = m.keys().find(|k| !exp.contains_key(*k)).cloned();
+                        res.problems.push((
+                            "history_after_crash".into(),
+                            format!(
+                                "the recovered state is the first {} transactions, but the version history differs: {}",
+                                n,
+                                match (bad, extra) {
+                                    (Some((k, e, g)), _) => format!("key {} has {} versions in the committed prefix, the history lists {:?}", hex(&k), e, g),
+                                    (None, Some(k)) => format!("the history lists key {} which the prefix never wrote", hex(&k)),
+                                    _ => "?".into(),
+                                }
+                            ),
+                        ));
+                    }
+                }
+            }
+        }
+    }
     for id in &ctx.failed_ids {
         if rec.contains_key(&marker_key(*id)) {
             res.problems.push(("failed_visible".into(), format!("transaction {} whose commit returned an error is present after recovery", id)));
